@@ -15,15 +15,15 @@ import (
 )
 
 type specEnv struct {
-	x     *X
-	st    *State
-	old   *State
-	vars  map[string]SV
-	ovars map[string]SV // values of names inside old(...); nil = same as vars
-	info  *types.Info
-	fr    *Frame
-	bound map[string]Term
-	where string
+	x        *X
+	st       *State
+	old      *State
+	vars     map[string]SV
+	ovars    map[string]SV // values of names inside old(...); nil = same as vars
+	info     *types.Info
+	fr       *Frame
+	bound    map[string]Term
+	where    string
 	loopPre  *State        // state at loop entry (loop clauses only)
 	loopVars map[string]SV // bindings of locals at loop entry
 }
@@ -409,7 +409,7 @@ func ghostName(fun ast.Expr) (string, []ast.Expr) {
 var ghostBuiltins = map[string]bool{
 	"old": true, "implies": true, "iff": true, "ite": true, "is": true, "as": true, "errIs": true,
 	"fresh": true, "ncalls": true, "callarg": true, "callret": true, "firstret": true, "forall": true, "exists": true,
-	"pendingErr": true, "pendingFailed": true, "ctxDone": true, "allocated": true, "sameSlice": true, "sameFloat": true,
+	"pendingErr": true, "pendingFailed": true, "outCount": true, "outFirst": true, "outLast": true, "ctxDone": true, "allocated": true, "sameSlice": true, "sameFloat": true, "sameVal": true,
 	"deferActive": true, "deferVal": true, "deferObj": true, "dynret": true, "mathInt": true, "fitsInt64": true, "fitsInt32": true,
 	"strLen": true, "boolToInt": true, "uninterp": true, "loopEntry": true, "isNaN": true, "isInf": true,
 	"toFloat": true, "exactCmpIF": true, "errIsCtx": true, "roundHalfAway": true, "truncF": true, "f2iInRange64": true, "f2iTrunc": true,
@@ -855,6 +855,12 @@ func (env *specEnv) ghost(name string, targs []ast.Expr, e *ast.CallExpr) SV {
 			return T(SBool, fmt.Sprintf("(forall (%s) %s)", strings.Join(decls, " "), mkImplies(mkAnd(ranges...), body).S))
 		}
 		return T(SBool, fmt.Sprintf("(exists (%s) %s)", strings.Join(decls, " "), mkAnd(append(ranges, body)...).S))
+	case "outCount":
+		return x.get(env.st, x.scalarKey("ghost:outCount", x.enc.isz(), func() Term { return x.ic(0) }))
+	case "outFirst":
+		return x.get(env.st, x.scalarKey("ghost:outFirst", SAny, func() Term { return T(SAny, "ANil") }))
+	case "outLast":
+		return x.get(env.st, x.scalarKey("ghost:outLast", SAny, func() Term { return T(SAny, "ANil") }))
 	case "pendingErr":
 		return x.get(env.st, x.pendingErrKey())
 	case "pendingFailed":
@@ -885,7 +891,7 @@ func (env *specEnv) ghost(name string, targs []ast.Expr, e *ast.CallExpr) SV {
 		return x.get(env.st, k)
 	case "sameFloat":
 		return app(SBool, "=", env.evalTerm(e.Args[0]), env.evalTerm(e.Args[1]))
-	case "sameSlice":
+	case "sameSlice", "sameVal":
 		a, b := env.evalTerm(e.Args[0]), env.evalTerm(e.Args[1])
 		return mkEq(a, b)
 	case "strLen":
